@@ -461,6 +461,9 @@ pub fn main(subjects: Vec<Box<dyn DynSubject>>, lay: (Layouts, BTreeMap<String, 
         if prop == "C01" || prop == "C02" {
             crate::checks::contexts::c01_reentrant_user(&mut rep, &prop);
         }
+        if prop == "C09" {
+            crate::checks::contexts::c09_load_during_unwinding(&mut rep, &tmp);
+        }
         if (prop == "C13" && crate::checks::contexts::c13_writer_context(&mut rep)) || (prop == "C14" && crate::checks::contexts::c14_reader_contexts(&mut rep)) {
             // a thread is blocked inside the library: write the report and leave without touching it again
             let mut j = rep.to_json();
